@@ -89,7 +89,7 @@ func c16SameItem(a, b ap.Item) bool {
 	if vocab.IsEmptyItem(a) && vocab.IsEmptyItem(b) {
 		return (a == nil) == (b == nil) || true
 	}
-	return len(vocab.ExactDiff(a, b)) == 0
+	return len(vocab.ContentDiff(a, b)) == 0
 }
 
 func c16SameList(want, got ap.ItemCollection) bool {
@@ -272,7 +272,7 @@ func c16Check(entry string, x ap.Item) (ds []keyed, flatCount int) {
 					fmt.Sprintf("%s.%s: %s flattened to %s, reference %s (or without repeated mentions %s)", gt, f.Name, vocab.Dump(bl), vocab.Dump(al), vocab.Dump(full), vocab.Dump(dedup))})
 			}
 		default:
-			if d := vocab.ExactDiff(before.Interface(), after.Interface()); len(d) > 0 {
+			if d := vocab.ContentDiff(before.Interface(), after.Interface()); len(d) > 0 {
 				ds = append(ds, keyed{fmt.Sprintf("flatten %s other-property %s.%s", entry, gt, f.Name), "a property outside the flattened positions changed: " + strings.Join(d, "; ")})
 			}
 		}
